@@ -55,33 +55,42 @@ pub fn run(ctx: &Ctx) -> i32 {
     let cfg_raw = bfs::Config { max_depth: raw_depth, dedup: false, state_cap: usize::MAX, wall_cap_s: ctx.tier.pick(45, 1200) };
     let (acc_raw, stats_raw) = bfs::explore(roots, &cfg_raw, Some(Env::new(true)), step);
     acc.merge(acc_raw);
-    // long executions: a subroutine of 196 613 instructions with 65 536 unpaired calls
-    let long = linking_jumps();
-    let long_alpha = [Action::of(Cmd::Step), Action::of(Cmd::StepOut), Action::of(Cmd::Continue), Action::of(Cmd::StepInto(60000)), Action::of(Cmd::StepInto(2))];
-    let mut long_hists: Vec<Vec<u8>> = Vec::new();
-    for len in 1..=2usize {
-        for idx in 0..crate::util::pow(long_alpha.len(), len) {
-            long_hists.push(crate::util::seq(idx, long_alpha.len(), len).iter().map(|x| *x as u8).collect());
+    // long executions: (a) a subroutine of 196 613 instructions with 65 536 unpaired calls; (b) a
+    // recursion 300 levels deep through one call site, stepped over from inside (more than 255
+    // nested invocations below the stepped call)
+    let long_progs = [linking_jumps(), deep_recursion(300)];
+    let long_alphas: [Vec<Action>; 2] = [
+        vec![Action::of(Cmd::Step), Action::of(Cmd::StepOut), Action::of(Cmd::Continue), Action::of(Cmd::StepInto(60000)), Action::of(Cmd::StepInto(2))],
+        vec![Action::of(Cmd::Step), Action::of(Cmd::StepInto(4)), Action::of(Cmd::StepOut), Action::of(Cmd::StepInto(7)), Action::of(Cmd::Continue)],
+    ];
+    let mut long_hists: Vec<(usize, Vec<u8>)> = Vec::new();
+    for (pi, alpha) in long_alphas.iter().enumerate() {
+        for len in 1..=(if pi == 0 { 2usize } else { 3 }) {
+            for idx in 0..crate::util::pow(alpha.len(), len) {
+                long_hists.push((pi, crate::util::seq(idx, alpha.len(), len).iter().map(|x| *x as u8).collect()));
+            }
         }
     }
     let parts = crate::isolate::pooled(Some(Env::new(true)), long_hists.len(), 1, Acc::new, |acc, i| {
-        let actions: Vec<&Action> = long_hists[i].iter().map(|k| &long_alpha[*k as usize]).collect();
+        let (pi, hist) = &long_hists[i];
+        let long = &long_progs[*pi];
+        let actions: Vec<&Action> = hist.iter().map(|k| &long_alphas[*pi][*k as usize]).collect();
         acc.eval("long-subroutine");
-        let case = json!({"long": true, "program": long.name, "source": long.text, "history": long_hists[i], "script": script_of(&actions, Tail::Exit)});
-        let obs = match run_real_fuel(&long, &actions, Tail::Exit, true, LONG_FUEL) {
+        let case = json!({"long": true, "long_program": pi, "program": long.name, "source": long.text, "history": hist, "script": script_of(&actions, Tail::Exit)});
+        let obs = match run_real_fuel(long, &actions, Tail::Exit, true, LONG_FUEL) {
             Ok(o) => o,
             Err((sig, what)) => {
                 acc.violation(format!("C10/long/{sig}"), what, case);
                 return;
             }
         };
-        let (d, pauses) = run_ref_fuel(&long, &actions, LONG_FUEL);
-        match compare_paused(&long, &actions, &obs, &d, &pauses) {
+        let (d, pauses) = run_ref_fuel(long, &actions, LONG_FUEL);
+        match compare_paused(long, &actions, &obs, &d, &pauses) {
             Err(m) => acc.violation(format!("C10/long/{}", m.sig), m.what, case),
             Ok(_) => {
                 acc.nontrivial();
-                acc.outcome(format!("long/{}/pc{:04x}", actions.iter().map(|a| cmd_kind(&a.cmd)).collect::<Vec<_>>().join("-"), obs.machine.pc));
-                if d.total_executed > 65536 {
+                acc.outcome(format!("long/{}/{}/pc{:04x}", long.name, actions.iter().map(|a| cmd_kind(&a.cmd)).collect::<Vec<_>>().join("-"), obs.machine.pc));
+                if *pi == 0 && d.total_executed > 65536 {
                     acc.gate("ran-past-65536-calls");
                 }
             }
@@ -95,7 +104,7 @@ pub fn run(ctx: &Ctx) -> i32 {
         ctx,
         acc,
         Level { category: "model_checking", bfs: Some((stats.states, transitions, transitions, stats.max_depth)) },
-        "explicit-state BFS over command histories (alphabet: step, step into {0,1,2,5,60000}, step out, continue, goto origin, break add/remove at up to three addresses) on 9 programs (counted loop, leaving user space upwards through a bare RET / downwards through a branch / to xFFFF through a jump, taken/untaken forward/backward branches, nested JSR/RET, recursion through one CALL site with RETS, HALT in the middle, JSRR + self-branch); every transition replays history+command+`exit` on the real debugger and on the reference debugger (product exploration) and compares registers, PC, CC, all memory, breakpoint set, program output and the number of instructions executed; states deduplicated on the digest of the paused product state (machine, breakpoints, current breakpoint); plus a raw (no merging) enumeration to a smaller depth; plus every history up to length 2 over {step, step out, continue, step into 60000, step into 2} on a subroutine that executes 65 536 unpaired JSRs (196 613 instructions; drives call-depth bookkeeping past 2^16). non-trivial = transitions on which both sides agreed (distinct histories)",
+        "explicit-state BFS over command histories (alphabet: step, step into {0,1,2,5,60000}, step out, continue, goto origin, break add/remove at up to three addresses) on 9 programs (counted loop, leaving user space upwards through a bare RET / downwards through a branch / to xFFFF through a jump, taken/untaken forward/backward branches, nested JSR/RET, recursion through one CALL site with RETS, HALT in the middle, JSRR + self-branch); every transition replays history+command+`exit` on the real debugger and on the reference debugger (product exploration) and compares registers, PC, CC, all memory, breakpoint set, program output and the number of instructions executed; states deduplicated on the digest of the paused product state (machine, breakpoints, current breakpoint); plus a raw (no merging) enumeration to a smaller depth; plus every history up to length 2 over {step, step out, continue, step into 60000, step into 2} on a subroutine that executes 65 536 unpaired JSRs (196 613 instructions; drives call-depth bookkeeping past 2^16), and every history up to length 3 over {step, step into 4, step out, step into 7, continue} on a CALL/RETS recursion 300 levels deep through one call site. non-trivial = transitions on which both sides agreed (distinct histories)",
         !stats.capped && !stats_raw.capped,
         &["paused-at-breakpoint", "paused-at-halt", "paused-outside-user-space", "stepped-over-subroutine", "loop-iteration-repeated", "command-refused", "ran-past-65536-calls"],
         &["reference debugger = DESIGN.md appendix A", "observation only at command boundaries (script + exit)"],
@@ -107,8 +116,13 @@ const LONG_FUEL: u64 = 3_000_000;
 
 pub fn replay(_ctx: &Ctx, case: &Value) -> Option<Option<String>> {
     if case["long"].as_bool() == Some(true) {
-        let long = linking_jumps();
-        let long_alpha = [Action::of(Cmd::Step), Action::of(Cmd::StepOut), Action::of(Cmd::Continue), Action::of(Cmd::StepInto(60000)), Action::of(Cmd::StepInto(2))];
+        let pi = case["long_program"].as_u64().unwrap_or(0) as usize;
+        let long = if pi == 0 { linking_jumps() } else { deep_recursion(300) };
+        let long_alpha: Vec<Action> = if pi == 0 {
+            vec![Action::of(Cmd::Step), Action::of(Cmd::StepOut), Action::of(Cmd::Continue), Action::of(Cmd::StepInto(60000)), Action::of(Cmd::StepInto(2))]
+        } else {
+            vec![Action::of(Cmd::Step), Action::of(Cmd::StepInto(4)), Action::of(Cmd::StepOut), Action::of(Cmd::StepInto(7)), Action::of(Cmd::Continue)]
+        };
         let hist: Vec<u8> = case["history"].as_array()?.iter().map(|v| v.as_u64().unwrap() as u8).collect();
         let actions: Vec<&Action> = hist.iter().map(|k| &long_alpha[*k as usize]).collect();
         return Some(crate::isolate::confirm_fresh(|| {
